@@ -18,18 +18,13 @@ def Socket_setStatusCode (s : Sock) (statusCode : Int) (statusReason : Option By
 /-- `Socket::setHeader` -/
 def Socket_setHeader (s : Sock) (name : Bytes) (value : Bytes) (replace : Bool) : Sock :=
   let s :=
-    if replace then
+    if (replace || (!(decide (((HeaderMap.count name s.respHeaders : Nat) : Int) ≠ 0)))) then
       let s := { s with respHeaders := (HeaderMap.remove name s.respHeaders) }
       let s := { s with respHeaders := (HeaderMap.insert name value s.respHeaders) }
       s
     else
-      if (decide (((HeaderMap.count name s.respHeaders : Nat) : Int) ≠ 0)) then
-        let s := { s with respHeaders := (HeaderMap.replace name (((HeaderMap.value name s.respHeaders) ++ ([44, 32] : Bytes)) ++ value) s.respHeaders) }
-        s
-      else
-        let s := { s with respHeaders := (HeaderMap.remove name s.respHeaders) }
-        let s := { s with respHeaders := (HeaderMap.insert name value s.respHeaders) }
-        s
+      let s := { s with respHeaders := (HeaderMap.replace name (((HeaderMap.value name s.respHeaders) ++ ([44, 32] : Bytes)) ++ value) s.respHeaders) }
+      s
   s
 
 /-- `Socket::writeHeaders` -/
@@ -97,12 +92,9 @@ def SocketPrivate_readHeaders (env : Env) (app : App) (s : Sock) : Sock × Bool 
           if (HeaderMap.contains ([67, 111, 110, 116, 101, 110, 116, 45, 76, 101, 110, 103, 116, 104] : Bytes) s.reqHeaders) then
             let s := { s with total := (Qhttp.toLongLong (HeaderMap.value ([67, 111, 110, 116, 101, 110, 116, 45, 76, 101, 110, 103, 116, 104] : Bytes) s.reqHeaders)) }
             let s :=
-              if (decide (s.total ≥ (0 : Int))) then
-                if (decide ((Cxx.size s.readBuffer) > s.total)) then
-                  let s := { s with readBuffer := (Cxx.truncate s.readBuffer s.total) }
-                  s
-                else
-                  s
+              if ((decide (s.total ≥ (0 : Int))) && (decide ((Cxx.size s.readBuffer) > s.total))) then
+                let s := { s with readBuffer := (Cxx.truncate s.readBuffer s.total) }
+                s
               else
                 s
             s
@@ -122,12 +114,9 @@ def SocketPrivate_readHeaders (env : Env) (app : App) (s : Sock) : Sock × Bool 
 /-- `SocketPrivate::readData` -/
 def SocketPrivate_readData (env : Env) (app : App) (s : Sock) : Sock :=
   let s :=
-    if (decide (s.total ≥ (0 : Int))) then
-      if (decide ((s.dataRead + (Cxx.size s.readBuffer)) > s.total)) then
-        let s := { s with readBuffer := (Cxx.truncate s.readBuffer (s.total - s.dataRead)) }
-        s
-      else
-        s
+    if ((decide (s.total ≥ (0 : Int))) && (decide ((s.dataRead + (Cxx.size s.readBuffer)) > s.total))) then
+      let s := { s with readBuffer := (Cxx.truncate s.readBuffer (s.total - s.dataRead)) }
+      s
     else
       s
   let s :=
@@ -137,13 +126,10 @@ def SocketPrivate_readData (env : Env) (app : App) (s : Sock) : Sock :=
     else
       s
   let s :=
-    if (decide (s.total ≠ (-(1 : Int)))) then
-      if (decide ((s.dataRead + (Cxx.size s.readBuffer)) ≥ s.total)) then
-        let s := { s with rs := RState.finished }
-        let s := Cxx.emitRcf env app s
-        s
-      else
-        s
+    if ((decide (s.total ≠ (-(1 : Int)))) && (decide ((s.dataRead + (Cxx.size s.readBuffer)) ≥ s.total))) then
+      let s := { s with rs := RState.finished }
+      let s := Cxx.emitRcf env app s
+      s
     else
       s
   s
